@@ -16,6 +16,41 @@ from ..core import Ctx, Evidence, Finding, witness_of
 from ..values import E, Pdu, Sym
 
 
+def _completes_silently(a, node, depth: int = 6) -> bool:
+    """from `node`, along state_machine(None)/drain edges that are not timer driven, every branch reaches IDLE or the wait for
+    the Finished PDU's acknowledgement (the Finished PDU / indication have been issued) within `depth` calls"""
+    if node is None:
+        return False
+    h = a.h
+    outs: dict[int, list] = getattr(a, "_silent_out", None)
+    if outs is None:
+        outs = {}
+        for e in a.edges:
+            if e.label in (("state_machine", None), ("drain",)):
+                outs.setdefault(e.src, []).append(e)
+        a._silent_out = outs
+
+    def done(w) -> bool:
+        return state_of(a, w) == "IDLE" or step_of(a, w) in ("WAITING_FOR_FINISHED_ACK",)
+
+    seen: set[int] = set()
+
+    def go(n: int, d: int) -> bool:
+        w = h.watch(a.nodes[n])
+        if done(w):
+            return True
+        if d == 0 or n in seen:
+            return False
+        seen.add(n)
+        es = [e for e in outs.get(n, []) if e.exc is None and e.dst is not None and not any(isinstance(k, tuple) and k and k[0] == "timer" and v is True for k, v in e.ch)]
+        es = [e for e in es if e.dst != n]
+        if not es:
+            return False
+        return all(go(e.dst, d - 1) for e in es)
+
+    return go(node, depth)
+
+
 def _cancel_is_final(ctx: Ctx, ev: Evidence) -> list[Finding]:
     """C12-R4: once the receiver has recorded a cancellation (Cancel.request or EOF (cancel)), that transaction requests no
     more retransmissions and its recorded condition is not replaced by a success: every edge leaving a BUSY node whose
@@ -172,9 +207,12 @@ def check(ctx: Ctx, ev: Evidence) -> list[Finding]:
                 cond = st.get("FinishedParams.condition_code")
                 fl = st.get("FinishedParams.fault_location")
                 disp = st.get("_DestFieldWrapper.completion_disposition")
+                # the cancellation takes effect without any further input: following packet-less calls only, the notice of
+                # completion (back to idle) is reached, whatever intermediate step the handler is left in
+                completes = _completes_silently(a, e.dst)
                 ok = cond == E("ConditionCode", "CANCEL_REQUEST_RECEIVED") and ename(disp) == "CANCELED" and "cfg.local_entity_id" in repr(fl) and "remote_cfg" not in repr(fl) \
-                    and step_of(a, e.post) == "TRANSFER_COMPLETION"
-                k = f"dest handler | Cancel.request: condition={ename(cond)}, disposition={ename(disp)}, fault location={fl!r}, next step {step_of(a, e.post)}"
+                    and completes
+                k = f"dest handler | Cancel.request: condition={ename(cond)}, disposition={ename(disp)}, fault location={fl!r}, completion by packet-less calls: {completes}"
                 if once(k):
                     ev.inst("C12-R3", k, "ok" if ok else "violation")
                     if not ok:
@@ -224,7 +262,8 @@ def check(ctx: Ctx, ev: Evidence) -> list[Finding]:
                         continue
                     cond = dict(st).get("FinishedParams.condition_code")
                     fl = trig[0].args[0]
-                    ok = ename(cond) == "$OTHER" and "remote_cfg.entity_id" in repr(fl) and "cfg.local_entity_id" not in repr(fl)
+                    pkt_cond = next((v for k_, v in e.ch if k_ == ("pkt", "condition_code")), None)
+                    ok = ename(cond) != "NO_ERROR" and cond == pkt_cond and "remote_cfg.entity_id" in repr(fl) and "cfg.local_entity_id" not in repr(fl)
                     k = f"dest handler | EOF(cancel): condition={ename(cond)} (the EOF's), fault location={fl!r}"
                     if once(k):
                         ev.inst("C12-R3", k, "ok" if ok else "violation")
